@@ -1210,7 +1210,19 @@ class DataFrameSchema(Generic[TDataObject], BaseSchema):
             additional_columns: Dict[str, Any] = (
                 {col: new_schema.index.columns.get(col) for col in level_temp}
                 if isinstance(new_schema.index, MultiIndex)
-                else {new_schema.index.name: new_schema.index}
+                else {
+                    # as DataFrame.reset_index: an unnamed index becomes the
+                    # column "index" ("level_0" if that name is taken)
+                    (
+                        new_schema.index.name
+                        if new_schema.index.name is not None
+                        else (
+                            "index"
+                            if "index" not in new_schema.columns
+                            else "level_0"
+                        )
+                    ): new_schema.index
+                }
             )
             # as DataFrame.reset_index: a level cannot be inserted under the
             # name of an existing column
@@ -1231,7 +1243,7 @@ class DataFrameSchema(Generic[TDataObject], BaseSchema):
                         unique=v.unique,
                         report_duplicates=v.report_duplicates,
                         coerce=v.coerce,
-                        name=v.name,
+                        name=k,
                         title=v.title,
                         description=v.description,
                         default=v.default,
